@@ -129,7 +129,8 @@ func (b *lifecycleB) Ask() bool {
 	_, err := b.u.UnifyModels(context.Background(), models, b.ep)
 	return err == nil
 }
-func (b *lifecycleB) Fail() { b.u.RecordEndpointFailure(b.ep.URLString, errors.New("registration failed")) }
+func (b *lifecycleB) Fail()    { b.u.RecordEndpointFailure(b.ep.URLString, errors.New("registration failed")) }
+func (b *lifecycleB) Cleanup() { b.u.VerifCleanupTick() }
 func (b *lifecycleB) Succ() {} // reported by UnifyModels itself
 
 type params struct {
@@ -194,7 +195,7 @@ func allParams() []params {
 		{Name: "unifier-manager-2-2-1s-3", T: 2, D: time.Second, Policy: "unifier", H: 3, ST: 2, Assert: true,
 			mk: mkM(ucfg(2, 2, time.Second, 3)), steps: []time.Duration{300 * time.Millisecond, 1100 * time.Millisecond}},
 		// ... and through the LifecycleUnifier that production code calls (asks and successes are one call there)
-		{Name: "unifier-lifecycle-2-2-1s-3", T: 2, D: time.Second, Policy: "unifier", H: 3, ST: 2, Assert: true, kinds: []string{"AS", "ASe", "F!"},
+		{Name: "unifier-lifecycle-2-2-1s-3", T: 2, D: time.Second, Policy: "unifier", H: 3, ST: 2, Assert: true, kinds: []string{"AS", "ASe", "F!", "C!"},
 			mk: mkL(ucfg(2, 2, time.Second, 3)), steps: []time.Duration{300 * time.Millisecond, 1100 * time.Millisecond}},
 		{Name: "unifier-lifecycle-default", T: def.FailureThreshold, D: def.OpenDuration, Policy: "unifier", H: def.HalfOpenRequests, ST: def.SuccessThreshold, Assert: true, kinds: []string{"AS", "ASe", "F!"},
 			mk: mkL(def), steps: []time.Duration{time.Second, 61 * time.Second}},
@@ -442,6 +443,11 @@ func (r *runner) step(e event) *fail {
 		}
 	case "F!": // a failure reported for the endpoint without a call having been admitted (a failed discovery)
 		r.outcome(r.idx, false)
+	case "C!": // one tick of the unifier's background cleanup: housekeeping, which must not change what the breaker says
+		if cb, ok := r.b.(interface{ Cleanup() }); ok {
+			cb.Cleanup()
+		}
+		res.Add("transitions", 1)
 	case "F", "S":
 		at := r.pending[0]
 		r.pending = r.pending[1:]
